@@ -20,7 +20,7 @@ RULE = ("Hypothesis-generated prefix histories (<=8 ops: valid plain sets, links
         "parameters holding shared number generators under a time-dependent clock, with a rejected (constant / read-only / "
         "out-of-bounds) assignment of a generator or plain value; oracle = what every parameter yields at the unchanged time, "
         "the stored generators and the event log are the same before and after (non-trivial there = the rejected generator "
-        "is also the live value of another parameter).")
+        "is also the live value of another parameter). A third, small world (1 case in 13): a rejected assignment to a parameter on which an asynchronous reference is still pending - the reference must still deliver.")
 ASSUMPTIONS = [
     "only attempts the spec rejects are generated (whether a value is rejected is C01's subject)",
     "multi-key update() is excluded: C05 requires the keys applied before a rejected one to be announced",
@@ -51,7 +51,10 @@ _attempt = st.one_of(
     st.tuples(st.just("bad_ref"), st.sampled_from(["x", "y"]), st.sampled_from(["p", "bind", "rx", "dep"])),
     st.tuples(st.just("constant"), st.sampled_from(["c", "r", "name", "sel"]), st.sampled_from(["plain", "ref"])),
     # a Composite whose second component (or length) is invalid: the first, valid component must not be applied either
-    st.tuples(st.just("bad_composite"), st.just("pq"), st.sampled_from(["second_invalid", "first_invalid", "too_long"])),
+    st.tuples(st.just("bad_composite"), st.just("pq"), st.sampled_from(["second_invalid", "first_invalid", "too_long",
+                                                                        "second_invalid_for_instance"])),
+    # a rejection that is neither ValueError nor TypeError: a folder that does not exist
+    st.tuples(st.just("bad_path"), st.just("pth")),
 ).map(list)
 
 
@@ -81,8 +84,71 @@ def _dyn_case(draw):
             "gen_kind": draw(st.sampled_from(["counter", "ng"]))}
 
 
+_async_case = st.fixed_dictionaries({
+    "scenario": st.just("async_pending"), "kind": st.sampled_from(["coro", "agen"]),
+    "attempt": st.sampled_from(["bad_plain", "bad_param_ref", "bad_bind", "bad_type"]), "route": st.sampled_from(["attr", "update"]),
+    "drains": st.integers(0, 3)})
+
+
 def strategy(tier):
-    return st.one_of(_case(), _case(), _case(), _case(), _case(), _dyn_case())
+    return st.one_of(_case(), _case(), _case(), _case(), _case(), _case(), _case(), _case(), _case(), _case(), _dyn_case(),
+                     _dyn_case(), _async_case)
+
+
+def _execute_async_pending(case):
+    """An asynchronous reference is pending on the parameter; a rejected synchronous assignment to that parameter changes
+    nothing: the reference stays linked and still delivers its value."""
+    import asyncio
+    res = Result()
+    P = type("P", (param.Parameterized,), {"x": param.Number(default=0, bounds=(0, 100), allow_refs=True)})
+    S = type("S", (param.Parameterized,), {"v": param.Parameter(default=5000)})
+
+    async def main():
+        o = P()
+        log = []
+        o.param.watch(lambda e: log.append(e.new), "x")
+        fut = asyncio.get_running_loop().create_future()
+
+        async def coro():
+            return await fut
+
+        async def agen():
+            yield await fut
+        o.x = coro if case["kind"] == "coro" else agen
+        for _ in range(case["drains"]):
+            await asyncio.sleep(0)
+        bad = {"bad_plain": 5000, "bad_param_ref": S().param.v, "bad_bind": param.bind(lambda v: v, S().param.v),
+               "bad_type": "not-a-number"}[case["attempt"]]
+        n_tasks = len(o._param__private.async_refs)
+        try:
+            if case["route"] == "attr":
+                o.x = bad
+            else:
+                o.param.update(x=bad)
+        except (ValueError, TypeError):
+            pass
+        else:
+            res.fail("C02.attempt_not_rejected", f"async_pending {case!r}: the invalid assignment was accepted (x={o.x!r})")
+            return
+        if log or o.x != 0:
+            res.fail("C02.value_changed", f"async_pending {case!r}: the rejected assignment changed x to {o.x!r} / invoked watchers {log!r}")
+        if len(o._param__private.async_refs) != n_tasks:
+            res.fail("C02.links_changed", f"async_pending {case!r}: the pending asynchronous reference was dropped by the rejected assignment")
+        if fut.done():
+            res.fail("C02.old_link_lost", f"async_pending {case!r}: the rejected assignment cancelled what the pending reference awaits")
+            return
+        fut.set_result(7)
+        for _ in range(8):
+            await asyncio.sleep(0)
+        if o.x != 7:
+            res.fail("C02.old_link_lost", f"async_pending {case!r}: after the rejected assignment the pending reference no longer "
+                                          f"delivers its value (x={o.x!r}, expected 7)")
+    asyncio.run(main())
+    from param import _utils
+    _utils._running_tasks.clear()
+    res.label("scenario:async_pending", "attempt:" + case["attempt"], "route:" + case["route"])
+    res.nontrivial = True
+    return res
 
 
 class _Counter:
@@ -182,6 +248,8 @@ def _plain(n, k):
 def execute(case):
     if case.get("scenario") == "dynamic":
         return _execute_dynamic(case)
+    if case.get("scenario") == "async_pending":
+        return _execute_async_pending(case)
     res = Result()
     S, T = rw.make_classes()
     srcs = [S(), S()]
@@ -250,7 +318,15 @@ def execute(case):
         else:
             value = src_p
     elif kind == "bad_composite":
-        value = {"second_invalid": [7, 99], "first_invalid": [99, 7], "too_long": [3, 4, 5]}[att[2]]
+        value = {"second_invalid": [7, 99], "first_invalid": [99, 7], "too_long": [3, 4, 5],
+                 "second_invalid_for_instance": [7, 8]}[att[2]]
+        if att[2] == "second_invalid_for_instance":
+            # the second component is valid for the class but not under the bounds this instance has for it
+            tgt.param.q.bounds = (0, 5)
+            if route not in ("attr", "update"):
+                route = "attr"
+    elif kind == "bad_path":
+        value = "/no/such/folder/anywhere-c02"
     else:
         if att[2] == "plain":
             value = {"c": 77, "r": 78, "name": "newname", "sel": 99}[name]
@@ -314,7 +390,7 @@ def execute(case):
         else:
             setattr(T, name, value)
         raised = None
-    except (ValueError, TypeError) as e:
+    except (ValueError, TypeError, OSError) as e:
         raised = e
     nlog_after_attempt = len(log)
     if batch is not None:
